@@ -437,6 +437,32 @@ def run(ctx):
                                            'input': {'cells': {k: str(v) for k, v in cells.items()}},
                                            'expected': want, 'got': got})
 
+    # (3c) MIXED argument lists (round-8 seed C07-11: a fast path returning the first DIRECT error argument before the
+    # arguments were converted): an error element inside a range argument and a different error as another, direct
+    # argument (literal, NA()-style call, a cell) — the leftmost in ARGUMENT order is the result
+    for name in ['SUM', 'AVERAGE', 'MIN', 'MAX']:
+        for ci, code in enumerate(CODES):
+            other = CODES[(ci + 3) % 7]
+            for pos in range(3):
+                cells = {'Sheet1!A1': 1, 'Sheet1!A2': 2, 'Sheet1!A3': 3, 'Sheet1!Z1': f'={other}'}
+                cells[f'Sheet1!A{pos + 1}'] = f'={code}' if code != '#DIV/0!' else '=1/0'
+                w_in, w_out = 'E:' + CODE_WIRE[code], 'E:' + CODE_WIRE[other]
+                for form, want in ((f'={name}(A1:A3,{other})', w_in), (f'={name}(A1:A3,5,Z1)', w_in),
+                                   (f'={name}(7,A1:A3,{other})', w_in), (f'={name}({other},A1:A3)', w_out),
+                                   (f'={name}(Z1,7,A1:A3)', w_out), (f'={name}(A1:A3,A1:A3,Z1)', w_in),
+                                   (f'={name}(A1:A3,{other})+1', w_in)):
+                    c2 = dict(cells)
+                    c2['Sheet1!C1'] = form
+                    got = eval_cells(c2, {}, 'Sheet1!C1')
+                    res.evaluations += 1
+                    res.count('aggregate-error-mixed')
+                    res.nontrivial.add((name, 'mixed', code, pos, form))
+                    if got != want:
+                        res.violations.append({'what': f'{name}: with an error element in a range argument and another error as a '
+                                                       'direct argument, the leftmost in argument order is not the result',
+                                               'input': {'cells': {k: str(v) for k, v in c2.items()}},
+                                               'expected': want, 'got': got})
+
     # (3b) the same in LARGE ranges: an error element behind long runs of ordinary values (0, FALSE, 7, "x") — none of
     # them is an empty cell, so nothing of the range may be dropped — as a wide row, a tall column and a block;
     # the error must be the result and must be handed on to a dependant
